@@ -30,7 +30,7 @@ class SymbolicTensor:
         Tensor is updated in-place.
         """
         if axes is None:
-            axes = reversed(range(self.ndim))
+            axes = list(reversed(range(self.ndim)))
         if len(set(axes)) != len(axes):
             raise ValueError(f"axes = {axes} is not a valid permutation")
         self.shape = tuple(self.shape[ax] for ax in axes)
